@@ -14,11 +14,12 @@ RULE = ('(1) EXHAUSTIVE packet-set semantics: over 4 adjacent addresses x ports 
         'packets; (2) from_network -> get_network/get_port returns exactly the network and port given, for random networks of every prefix length; '
         '(3) RESPONDER, end to end: an independent initiator (valid AUTH) sends TSi/TSr lists of length 1-3 against 1- and 3-entry policies: when the '
         'responder installs, its answered TSi/TSr lie inside a proposed selector AND inside the policy, and the kernel selectors lie inside the policy; when no '
-        'proposed pair and no policy contain one another, or the mode differs, the answer is exactly TS_UNACCEPTABLE and nothing is installed; (4) INITIATOR: an '
+        'proposed pair has a packet in common with any policy entry, or the mode differs, the answer is exactly TS_UNACCEPTABLE and nothing is installed; (4) INITIATOR: an '
         'independent responder (valid AUTH) answers with selectors widened in address, port or protocol (TSi only, TSr only, both) or with the other mode: '
         'nothing may be installed; honest narrowing must be installed; (5) a CHILD_SA rekey between two real endpoints installs selectors equal to the replaced '
         'SA\'s. distinct = case signatures.')
-ASSUMPTIONS = ['well-formed selectors only (start <= end)', 'for partially overlapping proposals either refusal or narrowing is accepted']
+ASSUMPTIONS = ['well-formed selectors only (start <= end)', 'for partially overlapping proposals either refusal or narrowing is accepted',
+               'the kernel selector of a non-CIDR address range is the enclosing prefix and the one-port range 0-0 maps to the kernel wildcard (port 0 is the wildcard encoding): noted, not flagged']
 SHARDS = {'quick': 8, 'thorough': 16}
 TIMEOUT = {'quick': 600, 'thorough': 3400}
 
@@ -131,6 +132,11 @@ def inside(s, outer):
         and outer['saddr'] <= s['saddr'] and s['eaddr'] <= outer['eaddr']
 
 
+def intersects(x, y):
+    return x['tstype'] == y['tstype'] and (x['ipproto'] == 0 or y['ipproto'] == 0 or x['ipproto'] == y['ipproto']) and max(x['sport'], y['sport']) <= min(x['eport'], y['eport']) \
+        and max(x['saddr'], y['saddr']) <= min(x['eaddr'], y['eaddr'])
+
+
 POLICIES = {
     'single-host': [dict(my_subnet=None, peer_subnet=None, my_port=23, peer_port=0, ip_proto='tcp')],
     'three-entries': [dict(my_subnet='10.2.0.0/16', peer_subnet='10.1.0.0/16', my_port=0, peer_port=0, ip_proto='any'),
@@ -174,14 +180,14 @@ def policy_selectors(pname):
 
 def gen_ts_request(rng, pols):
     """TSi (initiator = peer side of the responder's policy) and TSr lists of length 1-3."""
-    kind = rng.choice(['inside', 'inside', 'exact', 'wider', 'disjoint', 'partial', 'other-proto', 'mixed-list'])
+    kind = rng.choice(['inside', 'inside', 'exact', 'wider', 'disjoint', 'partial', 'other-proto', 'mixed-list', 'tsi-wider-tsr-narrower', 'tsi-narrower-tsr-wider', 'inside'])
     pol = rng.choice(pols)
 
     def narrow(s):
         lo, hi = int.from_bytes(s['saddr'], 'big'), int.from_bytes(s['eaddr'], 'big')
         a = rng.randrange(lo, hi + 1)
         b = rng.randrange(a, hi + 1) if rng.random() < 0.5 else a
-        p = (s['sport'], s['eport']) if s['sport'] == s['eport'] else rng.choice([(s['sport'], s['eport']), (1024, 1024), (80, 90)])
+        p = (s['sport'], s['eport']) if s['sport'] == s['eport'] else rng.choice([(s['sport'], s['eport']), (1024, 1024), (80, 90), (0, 1023), (1, 65535)])
         pr = s['ipproto'] if s['ipproto'] else rng.choice([0, 6, 17])
         n = len(s['saddr'])
         return {'tstype': s['tstype'], 'ipproto': pr, 'sport': p[0], 'eport': p[1], 'saddr': a.to_bytes(n, 'big'), 'eaddr': b.to_bytes(n, 'big')}
@@ -194,6 +200,10 @@ def gen_ts_request(rng, pols):
         tsi, tsr = [dict(pol['peer'])], [dict(pol['my'])]
     elif kind == 'wider':
         tsi, tsr = [widen(pol['peer'])], [widen(pol['my'])]
+    elif kind == 'tsi-wider-tsr-narrower':
+        tsi, tsr = [widen(pol['peer'])], [narrow(pol['my'])]
+    elif kind == 'tsi-narrower-tsr-wider':
+        tsi, tsr = [narrow(pol['peer'])], [widen(pol['my'])]
     elif kind == 'disjoint':
         tsi, tsr = [sel('172.31.0.1', '172.31.0.9', 0, 65535, 0)], [sel('172.30.0.1', '172.30.0.1', 0, 65535, 0)]
     elif kind == 'partial':
@@ -238,7 +248,9 @@ def responder_case(ck, rng, i):
     # does any proposed pair match any policy in either direction (contained in it, or containing it)?
     def related(x, y):
         return inside(x, y) or inside(y, x)
-    possible = any((inside(ti, pl['peer']) and inside(tr, pl['my'])) or (inside(pl['peer'], ti) and inside(pl['my'], tr)) for ti in tsi for tr in tsr for pl in pols)
+    # refusal is REQUIRED only when no proposed pair has a packet in common with any policy entry; for partial / mixed overlaps a responder may
+    # refuse or narrow, and whatever it installs is judged by the containment oracles below
+    possible = any(intersects(ti, pl['peer']) and intersects(tr, pl['my']) for ti in tsi for tr in tsr for pl in pols)
     mode_ok = ask_transport == (mode == 'transport')
     ck.count(f'responder.{kind}')
     ck.seen('responder.kinds', (pname, kind, mode_ok))
@@ -268,6 +280,11 @@ def responder_case(ck, rng, i):
             mine = ipaddress.ip_network((ksel['saddr' if outb else 'daddr'], ksel['prefixlen_s' if outb else 'prefixlen_d']), strict=False)
             theirs = ipaddress.ip_network((ksel['daddr' if outb else 'saddr'], ksel['prefixlen_d' if outb else 'prefixlen_s']), strict=False)
             ck.count('responder.kernel_selectors_checked')
+            # ports: a kernel selector without a port mask means ALL ports, which is only right when the negotiated selector has the full range
+            for side, ts in (('s' if outb else 'd', ctsr), ('d' if outb else 's', ctsi)):
+                kport, kmask = ksel[side + 'port'], ksel[side + 'port_mask']
+                if (kmask == 0 and (ts['sport'], ts['eport']) != (0, 65535)) or (kmask != 0 and not ts['sport'] <= kport <= ts['eport']):
+                    ck.violation('kernel-port-selector-wider-than-the-negotiated-selector', {'kernel': (kport, kmask), 'negotiated': (ts['sport'], ts['eport'])}, sim.case)
             if not any(mine.subnet_of(pl['mynet']) and theirs.subnet_of(pl['peernet']) for pl in pols):
                 ck.violation('kernel-selector-outside-the-policy-networks', {'sel': ksel}, sim.case)
             if r['msg']['sa']['mode'] != (0 if mode == 'transport' else 1):
